@@ -8,17 +8,18 @@ pub type Bits = Vec<u8>;
 pub type F8x1 = Bvf<u8, 1>;
 pub type F8x2 = Bvf<u8, 2>;
 pub type F8x3 = Bvf<u8, 3>;
+pub type F8x4 = Bvf<u8, 4>;
 pub type F16x1 = Bvf<u16, 1>;
-pub type F16x2 = Bvf<u16, 2>;
+pub type F16x4 = Bvf<u16, 4>;
 pub type F32x1 = Bvf<u32, 1>;
-pub type F32x2 = Bvf<u32, 2>;
+pub type F32x4 = Bvf<u32, 4>;
 pub type F64x1 = Bvf<u64, 1>;
 pub type F64x2 = Bvf<u64, 2>;
-pub type F64x3 = Bvf<u64, 3>;
+pub type F64x4 = Bvf<u64, 4>;
 pub type F128x1 = Bvf<u128, 1>;
-pub type F128x2 = Bvf<u128, 2>;
+pub type F128x4 = Bvf<u128, 4>;
 pub type Fux1 = Bvf<usize, 1>;
-pub type Fux2 = Bvf<usize, 2>;
+pub type Fux4 = Bvf<usize, 4>;
 pub type D = Bvd;
 pub type A = Bv;
 
@@ -28,36 +29,38 @@ pub enum Kind {
     F8x1,
     F8x2,
     F8x3,
+    F8x4,
     F16x1,
-    F16x2,
+    F16x4,
     F32x1,
-    F32x2,
+    F32x4,
     F64x1,
     F64x2,
-    F64x3,
+    F64x4,
     F128x1,
-    F128x2,
+    F128x4,
     Fux1,
-    Fux2,
+    Fux4,
     D,
     A,
 }
 
-pub const ALL_KINDS: [Kind; 16] = [
+pub const ALL_KINDS: [Kind; 17] = [
     Kind::F8x1,
     Kind::F8x2,
     Kind::F8x3,
+    Kind::F8x4,
     Kind::F16x1,
-    Kind::F16x2,
+    Kind::F16x4,
     Kind::F32x1,
-    Kind::F32x2,
+    Kind::F32x4,
     Kind::F64x1,
     Kind::F64x2,
-    Kind::F64x3,
+    Kind::F64x4,
     Kind::F128x1,
-    Kind::F128x2,
+    Kind::F128x4,
     Kind::Fux1,
-    Kind::Fux2,
+    Kind::Fux4,
     Kind::D,
     Kind::A,
 ];
@@ -68,17 +71,18 @@ impl Kind {
             Kind::F8x1 => "F8x1",
             Kind::F8x2 => "F8x2",
             Kind::F8x3 => "F8x3",
+            Kind::F8x4 => "F8x4",
             Kind::F16x1 => "F16x1",
-            Kind::F16x2 => "F16x2",
+            Kind::F16x4 => "F16x4",
             Kind::F32x1 => "F32x1",
-            Kind::F32x2 => "F32x2",
+            Kind::F32x4 => "F32x4",
             Kind::F64x1 => "F64x1",
             Kind::F64x2 => "F64x2",
-            Kind::F64x3 => "F64x3",
+            Kind::F64x4 => "F64x4",
             Kind::F128x1 => "F128x1",
-            Kind::F128x2 => "F128x2",
+            Kind::F128x4 => "F128x4",
             Kind::Fux1 => "Fux1",
-            Kind::Fux2 => "Fux2",
+            Kind::Fux4 => "Fux4",
             Kind::D => "D",
             Kind::A => "A",
         }
@@ -103,27 +107,28 @@ impl Kind {
             Kind::F8x1 => 8,
             Kind::F8x2 => 16,
             Kind::F8x3 => 24,
+            Kind::F8x4 => 32,
             Kind::F16x1 => 16,
-            Kind::F16x2 => 32,
+            Kind::F16x4 => 64,
             Kind::F32x1 => 32,
-            Kind::F32x2 => 64,
+            Kind::F32x4 => 128,
             Kind::F64x1 => 64,
             Kind::F64x2 => 128,
-            Kind::F64x3 => 192,
+            Kind::F64x4 => 256,
             Kind::F128x1 => 128,
-            Kind::F128x2 => 256,
+            Kind::F128x4 => 512,
             Kind::Fux1 => 64,
-            Kind::Fux2 => 128,
+            Kind::Fux4 => 256,
             Kind::D | Kind::A => return None,
         })
     }
     /// storage word size in bits
     pub fn word(self) -> usize {
         match self {
-            Kind::F8x1 | Kind::F8x2 | Kind::F8x3 => 8,
-            Kind::F16x1 | Kind::F16x2 => 16,
-            Kind::F32x1 | Kind::F32x2 => 32,
-            Kind::F128x1 | Kind::F128x2 => 128,
+            Kind::F8x1 | Kind::F8x2 | Kind::F8x3 | Kind::F8x4 => 8,
+            Kind::F16x1 | Kind::F16x4 => 16,
+            Kind::F32x1 | Kind::F32x4 => 32,
+            Kind::F128x1 | Kind::F128x4 => 128,
             _ => 64,
         }
     }
@@ -137,17 +142,18 @@ pub enum AnyBv {
     F8x1(F8x1),
     F8x2(F8x2),
     F8x3(F8x3),
+    F8x4(F8x4),
     F16x1(F16x1),
-    F16x2(F16x2),
+    F16x4(F16x4),
     F32x1(F32x1),
-    F32x2(F32x2),
+    F32x4(F32x4),
     F64x1(F64x1),
     F64x2(F64x2),
-    F64x3(F64x3),
+    F64x4(F64x4),
     F128x1(F128x1),
-    F128x2(F128x2),
+    F128x4(F128x4),
     Fux1(Fux1),
-    Fux2(Fux2),
+    Fux4(Fux4),
     D(D),
     A(A),
 }
@@ -160,17 +166,18 @@ macro_rules! with_kind {
             $crate::kinds::Kind::F8x1 => { type $T = $crate::kinds::F8x1; $body }
             $crate::kinds::Kind::F8x2 => { type $T = $crate::kinds::F8x2; $body }
             $crate::kinds::Kind::F8x3 => { type $T = $crate::kinds::F8x3; $body }
+            $crate::kinds::Kind::F8x4 => { type $T = $crate::kinds::F8x4; $body }
             $crate::kinds::Kind::F16x1 => { type $T = $crate::kinds::F16x1; $body }
-            $crate::kinds::Kind::F16x2 => { type $T = $crate::kinds::F16x2; $body }
+            $crate::kinds::Kind::F16x4 => { type $T = $crate::kinds::F16x4; $body }
             $crate::kinds::Kind::F32x1 => { type $T = $crate::kinds::F32x1; $body }
-            $crate::kinds::Kind::F32x2 => { type $T = $crate::kinds::F32x2; $body }
+            $crate::kinds::Kind::F32x4 => { type $T = $crate::kinds::F32x4; $body }
             $crate::kinds::Kind::F64x1 => { type $T = $crate::kinds::F64x1; $body }
             $crate::kinds::Kind::F64x2 => { type $T = $crate::kinds::F64x2; $body }
-            $crate::kinds::Kind::F64x3 => { type $T = $crate::kinds::F64x3; $body }
+            $crate::kinds::Kind::F64x4 => { type $T = $crate::kinds::F64x4; $body }
             $crate::kinds::Kind::F128x1 => { type $T = $crate::kinds::F128x1; $body }
-            $crate::kinds::Kind::F128x2 => { type $T = $crate::kinds::F128x2; $body }
+            $crate::kinds::Kind::F128x4 => { type $T = $crate::kinds::F128x4; $body }
             $crate::kinds::Kind::Fux1 => { type $T = $crate::kinds::Fux1; $body }
-            $crate::kinds::Kind::Fux2 => { type $T = $crate::kinds::Fux2; $body }
+            $crate::kinds::Kind::Fux4 => { type $T = $crate::kinds::Fux4; $body }
             $crate::kinds::Kind::D => { type $T = $crate::kinds::D; $body }
             $crate::kinds::Kind::A => { type $T = $crate::kinds::A; $body }
         }
@@ -185,17 +192,18 @@ macro_rules! with_any {
             $crate::kinds::AnyBv::F8x1($v) => $body,
             $crate::kinds::AnyBv::F8x2($v) => $body,
             $crate::kinds::AnyBv::F8x3($v) => $body,
+            $crate::kinds::AnyBv::F8x4($v) => $body,
             $crate::kinds::AnyBv::F16x1($v) => $body,
-            $crate::kinds::AnyBv::F16x2($v) => $body,
+            $crate::kinds::AnyBv::F16x4($v) => $body,
             $crate::kinds::AnyBv::F32x1($v) => $body,
-            $crate::kinds::AnyBv::F32x2($v) => $body,
+            $crate::kinds::AnyBv::F32x4($v) => $body,
             $crate::kinds::AnyBv::F64x1($v) => $body,
             $crate::kinds::AnyBv::F64x2($v) => $body,
-            $crate::kinds::AnyBv::F64x3($v) => $body,
+            $crate::kinds::AnyBv::F64x4($v) => $body,
             $crate::kinds::AnyBv::F128x1($v) => $body,
-            $crate::kinds::AnyBv::F128x2($v) => $body,
+            $crate::kinds::AnyBv::F128x4($v) => $body,
             $crate::kinds::AnyBv::Fux1($v) => $body,
-            $crate::kinds::AnyBv::Fux2($v) => $body,
+            $crate::kinds::AnyBv::Fux4($v) => $body,
             $crate::kinds::AnyBv::D($v) => $body,
             $crate::kinds::AnyBv::A($v) => $body,
         }
@@ -214,7 +222,7 @@ macro_rules! impl_into_any {
         }
     )+ };
 }
-impl_into_any!(F8x1, F8x2, F8x3, F16x1, F16x2, F32x1, F32x2, F64x1, F64x2, F64x3, F128x1, F128x2, Fux1, Fux2, D, A);
+impl_into_any!(F8x1, F8x2, F8x3, F8x4, F16x1, F16x4, F32x1, F32x4, F64x1, F64x2, F64x4, F128x1, F128x4, Fux1, Fux4, D, A);
 
 pub fn bit(b: u8) -> Bit {
     if b == 0 {
@@ -252,17 +260,18 @@ impl AnyBv {
             AnyBv::F8x1(_) => Kind::F8x1,
             AnyBv::F8x2(_) => Kind::F8x2,
             AnyBv::F8x3(_) => Kind::F8x3,
+            AnyBv::F8x4(_) => Kind::F8x4,
             AnyBv::F16x1(_) => Kind::F16x1,
-            AnyBv::F16x2(_) => Kind::F16x2,
+            AnyBv::F16x4(_) => Kind::F16x4,
             AnyBv::F32x1(_) => Kind::F32x1,
-            AnyBv::F32x2(_) => Kind::F32x2,
+            AnyBv::F32x4(_) => Kind::F32x4,
             AnyBv::F64x1(_) => Kind::F64x1,
             AnyBv::F64x2(_) => Kind::F64x2,
-            AnyBv::F64x3(_) => Kind::F64x3,
+            AnyBv::F64x4(_) => Kind::F64x4,
             AnyBv::F128x1(_) => Kind::F128x1,
-            AnyBv::F128x2(_) => Kind::F128x2,
+            AnyBv::F128x4(_) => Kind::F128x4,
             AnyBv::Fux1(_) => Kind::Fux1,
-            AnyBv::Fux2(_) => Kind::Fux2,
+            AnyBv::Fux4(_) => Kind::Fux4,
             AnyBv::D(_) => Kind::D,
             AnyBv::A(_) => Kind::A,
         }
@@ -293,17 +302,18 @@ impl AnyBv {
             AnyBv::F8x1(v) => (8, v.into_inner().0.iter().map(|w| *w as u128).collect()),
             AnyBv::F8x2(v) => (8, v.into_inner().0.iter().map(|w| *w as u128).collect()),
             AnyBv::F8x3(v) => (8, v.into_inner().0.iter().map(|w| *w as u128).collect()),
+            AnyBv::F8x4(v) => (8, v.into_inner().0.iter().map(|w| *w as u128).collect()),
             AnyBv::F16x1(v) => (16, v.into_inner().0.iter().map(|w| *w as u128).collect()),
-            AnyBv::F16x2(v) => (16, v.into_inner().0.iter().map(|w| *w as u128).collect()),
+            AnyBv::F16x4(v) => (16, v.into_inner().0.iter().map(|w| *w as u128).collect()),
             AnyBv::F32x1(v) => (32, v.into_inner().0.iter().map(|w| *w as u128).collect()),
-            AnyBv::F32x2(v) => (32, v.into_inner().0.iter().map(|w| *w as u128).collect()),
+            AnyBv::F32x4(v) => (32, v.into_inner().0.iter().map(|w| *w as u128).collect()),
             AnyBv::F64x1(v) => (64, v.into_inner().0.iter().map(|w| *w as u128).collect()),
             AnyBv::F64x2(v) => (64, v.into_inner().0.iter().map(|w| *w as u128).collect()),
-            AnyBv::F64x3(v) => (64, v.into_inner().0.iter().map(|w| *w as u128).collect()),
+            AnyBv::F64x4(v) => (64, v.into_inner().0.iter().map(|w| *w as u128).collect()),
             AnyBv::F128x1(v) => (128, v.into_inner().0.iter().copied().collect()),
-            AnyBv::F128x2(v) => (128, v.into_inner().0.iter().copied().collect()),
+            AnyBv::F128x4(v) => (128, v.into_inner().0.iter().copied().collect()),
             AnyBv::Fux1(v) => (64, v.into_inner().0.iter().map(|w| *w as u128).collect()),
-            AnyBv::Fux2(v) => (64, v.into_inner().0.iter().map(|w| *w as u128).collect()),
+            AnyBv::Fux4(v) => (64, v.into_inner().0.iter().map(|w| *w as u128).collect()),
             AnyBv::D(v) => (64, v.into_inner().0.iter().map(|w| *w as u128).collect()),
             AnyBv::A(Bv::Fixed(v)) => (64, v.into_inner().0.iter().map(|w| *w as u128).collect()),
             AnyBv::A(Bv::Dynamic(v)) => (64, v.into_inner().0.iter().map(|w| *w as u128).collect()),
